@@ -385,6 +385,26 @@ def rule_regex(ctx, prop):
                                     if r[0] == "const":
                                         tmpl = r[1]
                         out = ("escaped-text", "\\\\" in tmpl or "\\x5c" in tmpl.lower())
+                        # ... and the placeholder is the matched text itself (not something computed from the configuration)
+                        for bi, cc, tt in st.calls:
+                            if cc.endswith("new_display") and tt["args"]:
+                                srcs = {c_.split("::")[-1] for c_ in prov_calls(provenance(cl, tt["args"][0], through=None))}
+                                deepc = set()
+                                work = [tt["args"][0]]
+                                seen_b = set()
+                                while work:
+                                    o_ = work.pop()
+                                    for r_ in provenance(cl, o_, through=None):
+                                        if r_[0] == "call" and r_[2] not in seen_b:
+                                            seen_b.add(r_[2])
+                                            deepc.add(r_[1].split("::")[-1])
+                                            ta = cl.blocks[r_[2]]["term"]["args"]
+                                            if ta:
+                                                work.append(ta[0])
+                                foreign = sorted(x for x in deepc if x not in ("as_str", "expect", "unwrap", "get", "to_owned", "to_string",
+                                                                                  "deref", "clone", "borrow", "as_ref", "name", "index"))
+                                if foreign:
+                                    out = ("escaped-other", tuple(foreign))
                 rows[(quote_some, tuple(sorted(eqs.items())), str(qt))] = out
 
             def find(quote, qtest):
@@ -437,7 +457,9 @@ def rule_regex(ctx, prop):
                                   f"the escape `\\{e}` is meaningful in a supported dialect but {label} sends it to a branch "
                                   f"that does not reproduce backslash + character: the string denotes a different value",
                                   loc, cfg)
-                others = branch[True] | branch[False]
+                # escapes answered before (or without) the predicate - `if text == "\n" { .. }` - count as well
+                early = {out for (qs, eqs, qt), out in rows.items() if qs is False and "<pred>" not in dict(eqs)}
+                others = branch[True] | branch[False] | early
                 ok = others <= {("text",), ("escaped-text", True)}
                 rep.inst(f"{cl.key} other escapes become the character or backslash + character", None, cfg, ok=ok)
                 if not ok:
